@@ -921,7 +921,7 @@ def gen_op(rng, fx: Fixture, ids, allow_errors=True):
     names = ['setint', 'setslice', 'setslice', 'delint', 'delslice', 'insert', 'insert', 'append', 'extend', 'pop']
     if rng.random() < 0.04:
         names = ['clear']
-    if vd is None and COMMENT in fx.raw_tys and rng.random() < 0.05:
+    if vd is None and COMMENT in fx.raw_tys and rng.random() < 0.12:
         names = ['claim', 'unclaim']
     if vd is not None:
         names += ['remove', 'discard']
@@ -1178,3 +1178,32 @@ def run_exhaustive(ctx, with_model=True, lens=range(0, 5), bounds=None, steps=(N
     if with_model and batches and ctx.extra.get('model_available', True):
         diff_with_model(ctx, batches)
     ctx.extra['exhaustive_cases'] = ctx.extra.get('exhaustive_cases', 0) + total
+
+
+def run_claim_probes(ctx, with_model=True):
+    """Deterministic histories: all views registered and read, comments unclaimed, views read again, comments claimed
+    again (the raw list changes under the registered views without a positional splice), then one edit through a
+    view.  Fixtures with standalone comments in every comment-bearing field kind."""
+    import random
+    batches = []
+    for seed in range(12):
+        rng = random.Random(f'claimprobe:{seed}')
+        for kind in ('directives', 'postings', 'meta-txn', 'meta-open', 'meta-posting'):
+            setup = gen_setup(rng, kind, n=rng.choice([2, 3, 4]))
+            if kind == 'directives' and ';' not in setup['text']:
+                setup['text'] = '; lead\n\n' + setup['text'] + '\n; tail\n'
+            if kind != 'directives' and not setup['pre']:
+                setup['pre'].append({'i': 1, 'val': [COMMENT, 41, 100]})
+            probe = Fixture(setup)
+            ops = [{'t': 'reg', 'v': j} for j in range(len(probe.defs))]
+            ops += [{'t': 'raw', 'op': 'unclaim'}, {'t': 'raw', 'op': 'claim'}, {'t': 'raw', 'op': 'unclaim'}, {'t': 'raw', 'op': 'claim'}]
+            ops += [{'t': 'view', 'v': 0, 'op': 'pop', 'i': -1}]
+            fx, lines, bad, done = run_one(setup, ops)
+            ctx.case(('claim-probe', kind, seed, bool(bad)))
+            ctx.count('claim-probe:' + kind)
+            if bad:
+                sig, what = bad[0]
+                ctx.oracle_fail(sig, what, {'setup': setup, 'ops': [clean_op(o) for o in done]})
+            batches.append(({'setup': setup, 'ops': [clean_op(o) for o in done]}, lines, fx.internal_ok))
+    if with_model and ctx.extra.get('model_available', True):
+        diff_with_model(ctx, batches)
